@@ -36,7 +36,7 @@ Inductive kind := KFile | KDir | KLink.
 Definition kind_eqb (a b : kind) : bool :=
   match a, b with KFile, KFile | KDir, KDir | KLink, KLink => true | _, _ => false end.
 
-Inductive errno := ENOENT | EEXIST | ENOTDIR | EISDIR | ENOTEMPTY | EINVAL | ELOOP | EIO | EBADF | EFUEL.
+Inductive errno := ENOENT | EEXIST | ENOTDIR | EISDIR | ENOTEMPTY | EINVAL | ELOOP | EIO | EBADF | EFBIG | EFUEL.
 
 (* sparse file contents: the non-zero bytes, as an association list offset -> byte *)
 Definition sdata := list (N * N).
